@@ -25,6 +25,12 @@ import (
 )
 
 const (
+	IdleStop = iota
+	IdleRetry
+	IdleAdvance
+)
+
+const (
 	stNew int32 = iota
 	stRunning
 	stParked
@@ -108,6 +114,10 @@ type Sim struct {
 	StopWhenIdle bool
 	// Idle is set when the run ended because nothing could happen any more.
 	Idle bool
+	// OnIdle is called when no task is runnable and the environment offers no
+	// action. It returns IdleStop, IdleRetry (harness state changed: recompute) or
+	// IdleAdvance (advance the clock to the next timer).
+	OnIdle func() int
 
 	// Trace: rolling hash over (step, label) and optional full log.
 	TraceHash uint64
@@ -122,6 +132,7 @@ type Sim struct {
 		AnonTasks                              int
 		HitStepCap, HitTimeCap                 bool
 		Tasks                                  int
+		IdleRetries                            int
 	}
 	anon int
 }
@@ -587,6 +598,20 @@ func (s *Sim) Run(root func()) {
 		if len(run) == 0 && len(acts) == 0 && s.StopWhenIdle {
 			s.Idle = true
 			return
+		}
+		if len(run) == 0 && len(acts) == 0 && s.OnIdle != nil {
+			switch s.OnIdle() {
+			case IdleStop:
+				s.Idle = true
+				return
+			case IdleRetry:
+				s.Stats.IdleRetries++
+				if s.Stats.IdleRetries > 10000 {
+					s.Stats.HitStepCap = true
+					return
+				}
+				continue
+			}
 		}
 		n := len(run) + len(acts)
 		clockIdx := -1
